@@ -1,11 +1,11 @@
 package e4
 
 import (
-	"strconv"
-	"math/big"
 	"fmt"
+	"math/big"
 	"net/http"
 	"regexp"
+	"strconv"
 	"strings"
 
 	"verifharness/report"
